@@ -202,17 +202,19 @@ def term : P (List Nat) := fun a =>
   else .error a.line
 
 /-! ### statements -/
-/-- `matchRule(c)` -/
-def rule (c : Nat) : P Call := fun a => do
-  let (ht, hd, a) ←
-    if c == 123 then do
-      let (_, a) ← tok [123] true a
-      let (hd, a) ← atoms [59, 44] a
-      let (_, a) ← tok [125] true a
-      pure ((1 : Nat), hd, a)
-    else do
-      let (hd, a) ← atoms [59, 124] a
-      pure ((0 : Nat), hd, a)
+/-- the head of `matchRule(c)`: head type and atoms -/
+def ruleHead (c : Nat) : P (Nat × List Nat) := fun a =>
+  if c == 123 then do
+    let (_, a) ← tok [123] true a
+    let (hd, a) ← atoms [59, 44] a
+    let (_, a) ← tok [125] true a
+    pure ((1, hd), a)
+  else do
+    let (hd, a) ← atoms [59, 124] a
+    pure ((0, hd), a)
+
+/-- the rest of `matchRule`: optional body, final `.` -/
+def ruleBody (ht : Nat) (hd : List Nat) : P Call := fun a => do
   let (hasBody, a) ← tok [58, 45] false a
   if hasBody then
     let p := peekWs a
@@ -223,11 +225,18 @@ def rule (c : Nat) : P Call := fun a => do
     else do
       let (bnd, a) ← int p.2
       let (ws, a) ← agg a
+      if ws.any (fun q => q.2 < 0) then .error a.line else         -- repaired (D16): "non-negative weight expected"
       let (_, a) ← tok [46] true a
       pure (.sumRule ht hd bnd ws, a)
   else do
     let (_, a) ← tok [46] true a
     pure (.rule ht hd [], a)
+
+/-- `matchRule(c)` -/
+def rule (c : Nat) : P Call := fun a =>
+  match ruleHead c a with
+  | .error l => .error l
+  | .ok (h, a1) => ruleBody h.1 h.2 a1
 
 def heuNames : List (List Nat) :=
   [[108, 101, 118, 101, 108], [115, 105, 103, 110], [102, 97, 99, 116, 111, 114], [105, 110, 105, 116], [116, 114, 117, 101], [102, 97, 108, 115, 101]]
@@ -240,93 +249,113 @@ inductive Stmt where
   | call (c : Call) | step | nothing
 deriving Repr, DecidableEq
 
+/-- try keyword `kw`: if it is there run `p` behind it, otherwise go on with `els` -/
+def alt (kw : List Nat) (p els : P Stmt) : P Stmt := fun a =>
+  match tok kw false a with
+  | .error l => .error l
+  | .ok (true, a1) => p a1
+  | .ok (false, a1) => els a1
+
+def dMinimize : P Stmt := fun a => do
+  let (ws, a) ← agg a
+  let (hasP, a) ← tok [64] false a
+  let (prio, a) ← (if hasP then int a else .ok (0, a))
+  let (_, a) ← tok [46] true a
+  pure (.call (.minimize prio ws), a)
+
+def dProject : P Stmt := fun a => do
+  let (br, a) ← tok [123] false a
+  let (l, a) ← (if br then do
+      let (l, a) ← atoms [44] a
+      let (_, a) ← tok [125] true a
+      pure (l, a) else .ok ([], a))
+  let (_, a) ← tok [46] true a
+  pure (.call (.project l), a)
+
+def dOutput : P Stmt := fun a => do
+  let (sym, a) ← term a
+  let (c, a) ← condition a
+  let (_, a) ← tok [46] true a
+  pure (.call (.output sym c), a)
+
+/-- the value between `[` and `]` of `#external`: true, free, release, or (required) false -/
+def extValue : P Nat := fun a => do
+  let (t, a) ← tok [116, 114, 117, 101] false a
+  if t then pure (1, a) else
+  let (f, a) ← tok [102, 114, 101, 101] false a
+  if f then pure (0, a) else
+  let (r, a) ← tok [114, 101, 108, 101, 97, 115, 101] false a
+  if r then pure (3, a) else
+  let (_, a) ← tok [102, 97, 108, 115, 101] true a
+  pure (2, a)
+
+def dExternal : P Stmt := fun a => do
+  let (x, a) ← ident a
+  let (_, a) ← tok [46] true a
+  let (br, a) ← tok [91] false a
+  if br then
+    let (v, a) ← extValue a
+    let (_, a) ← tok [93] true a
+    pure (.call (.external x v), a)
+  else pure (.call (.external x 2), a)
+
+def dAssume : P Stmt := fun a => do
+  let (br, a) ← tok [123] false a
+  let (l, a) ← (if br then do
+      let (l, a) ← lits a
+      let (_, a) ← tok [125] true a
+      pure (l, a) else .ok ([], a))
+  let (_, a) ← tok [46] true a
+  pure (.call (.assume l), a)
+
+def dHeuristic : P Stmt := fun a => do
+  let (x, a) ← ident a
+  let (c, a) ← condition a
+  let (_, a) ← tok [46] true a
+  let (_, a) ← tok [91] true a
+  let (v, a) ← int a
+  let (hasP, a) ← tok [64] false a
+  let (p, a) ← (if hasP then do
+      let (p, a) ← int a
+      if 0 ≤ p then pure (p, a) else .error a.line else .ok (0, a))
+  let (_, a) ← tok [44] true a
+  match heuMod heuNames 0 a with
+  | none => .error a.line
+  | some (h, a) => do
+    let (_, a) ← tok [93] true a.skipWs
+    pure (.call (.heuristic x h v p.toNat c), a)
+
+def dEdge : P Stmt := fun a => do
+  let (_, a) ← tok [40] true a
+  let (s, a) ← int a
+  let (_, a) ← tok [44] true a
+  let (t, a) ← int a
+  let (_, a) ← tok [41] true a
+  let (c, a) ← condition a
+  let (_, a) ← tok [46] true a
+  pure (.call (.acycEdge s t c), a)
+
+def dStep (inc : Bool) : P Stmt := fun a =>
+  if !inc then .error a.line else do
+  let (_, a) ← tok [46] true a
+  pure (.step, a)
+
+def dIncremental : P Stmt := fun a => do
+  let (_, a) ← tok [46] true a
+  pure (.nothing, a)
+
 /-- `matchDirective()` -/
-def directive (inc : Bool) : P Stmt := fun a => do
-  let (m, a) ← tok [35, 109, 105, 110, 105, 109, 105, 122, 101] false a               -- #minimize
-  if m then
-    let (ws, a) ← agg a
-    let (hasP, a) ← tok [64] false a
-    let (prio, a) ← (if hasP then int a else .ok (0, a))
-    let (_, a) ← tok [46] true a
-    return (.call (.minimize prio ws), a)
-  let (m, a) ← tok [35, 112, 114, 111, 106, 101, 99, 116] false a                       -- #project
-  if m then
-    let (br, a) ← tok [123] false a
-    let (l, a) ← (if br then do
-        let (l, a) ← atoms [44] a
-        let (_, a) ← tok [125] true a
-        pure (l, a) else .ok ([], a))
-    let (_, a) ← tok [46] true a
-    return (.call (.project l), a)
-  let (m, a) ← tok [35, 111, 117, 116, 112, 117, 116] false a                            -- #output
-  if m then
-    let (sym, a) ← term a
-    let (c, a) ← condition a
-    let (_, a) ← tok [46] true a
-    return (.call (.output sym c), a)
-  let (m, a) ← tok [35, 101, 120, 116, 101, 114, 110, 97, 108] false a                   -- #external
-  if m then
-    let (x, a) ← ident a
-    let (_, a) ← tok [46] true a
-    let (br, a) ← tok [91] false a
-    if br then
-      let (t, a) ← tok [116, 114, 117, 101] false a
-      let (v, a) ← (if t then .ok ((1 : Nat), a) else do
-        let (f, a) ← tok [102, 114, 101, 101] false a
-        if f then pure (0, a) else
-        let (r, a) ← tok [114, 101, 108, 101, 97, 115, 101] false a
-        if r then pure (3, a) else
-        let (_, a) ← tok [102, 97, 108, 115, 101] true a
-        pure (2, a))
-      let (_, a) ← tok [93] true a
-      return (.call (.external x v), a)
-    else return (.call (.external x 2), a)
-  let (m, a) ← tok [35, 97, 115, 115, 117, 109, 101] false a                             -- #assume
-  if m then
-    let (br, a) ← tok [123] false a
-    let (l, a) ← (if br then do
-        let (l, a) ← lits a
-        let (_, a) ← tok [125] true a
-        pure (l, a) else .ok ([], a))
-    let (_, a) ← tok [46] true a
-    return (.call (.assume l), a)
-  let (m, a) ← tok [35, 104, 101, 117, 114, 105, 115, 116, 105, 99] false a              -- #heuristic
-  if m then
-    let (x, a) ← ident a
-    let (c, a) ← condition a
-    let (_, a) ← tok [46] true a
-    let (_, a) ← tok [91] true a
-    let (v, a) ← int a
-    let (hasP, a) ← tok [64] false a
-    let (p, a) ← (if hasP then do
-        let (p, a) ← int a
-        if 0 ≤ p then pure (p, a) else .error a.line else .ok (0, a))
-    let (_, a) ← tok [44] true a
-    match heuMod heuNames 0 a with
-    | none => .error a.line
-    | some (h, a) =>
-      let (_, a) ← tok [93] true a.skipWs
-      return (.call (.heuristic x h v p.toNat c), a)
-  let (m, a) ← tok [35, 101, 100, 103, 101] false a                                      -- #edge
-  if m then
-    let (_, a) ← tok [40] true a
-    let (s, a) ← int a
-    let (_, a) ← tok [44] true a
-    let (t, a) ← int a
-    let (_, a) ← tok [41] true a
-    let (c, a) ← condition a
-    let (_, a) ← tok [46] true a
-    return (.call (.acycEdge s t c), a)
-  let (m, a) ← tok [35, 115, 116, 101, 112] false a                                      -- #step
-  if m then
-    if !inc then .error a.line else
-    let (_, a) ← tok [46] true a
-    return (.step, a)
-  let (m, a) ← tok [35, 105, 110, 99, 114, 101, 109, 101, 110, 116, 97, 108] false a     -- #incremental
-  if m then
-    let (_, a) ← tok [46] true a
-    return (.nothing, a)
-  .error a.line
+def directive (inc : Bool) : P Stmt :=
+  alt [35, 109, 105, 110, 105, 109, 105, 122, 101] dMinimize <|                        -- #minimize
+  alt [35, 112, 114, 111, 106, 101, 99, 116] dProject <|                               -- #project
+  alt [35, 111, 117, 116, 112, 117, 116] dOutput <|                                    -- #output
+  alt [35, 101, 120, 116, 101, 114, 110, 97, 108] dExternal <|                         -- #external
+  alt [35, 97, 115, 115, 117, 109, 101] dAssume <|                                     -- #assume
+  alt [35, 104, 101, 117, 114, 105, 115, 116, 105, 99] dHeuristic <|                   -- #heuristic
+  alt [35, 101, 100, 103, 101] dEdge <|                                                -- #edge
+  alt [35, 115, 116, 101, 112] (dStep inc) <|                                          -- #step
+  alt [35, 105, 110, 99, 114, 101, 109, 101, 110, 116, 97, 108] dIncremental <|        -- #incremental
+  fun a => .error a.line
 
 /-- `parseStatements()`: calls of one step; `.ok a` = end of step (end of input or `#step.`). fuel = characters left + 1 -/
 def stmtLoop (inc : Bool) : Nat → AS → List Call → (List Call × Except Nat AS)
